@@ -304,10 +304,11 @@ def cfgSmall : Cfg := ⟨8, 8, true, 1, false⟩     -- basic_any_object<8, 8, t
 def cfgThrow : Cfg := ⟨16, 8, false, 1, false⟩   -- basic_any_object<16, 8, false, CountAlloc>
 def cfgAl64 : Cfg := ⟨64, 64, true, 1, false⟩    -- basic_any_object<64, 64, true, CountAlloc>
 def cfgTiny : Cfg := ⟨1, 1, true, 1, false⟩      -- basic_any_object<1, 1, true, CountAlloc>: padded to a pointer
+def cfgWide : Cfg := ⟨64, 8, true, 1, false⟩     -- basic_any_object<64, 8, true, CountAlloc>: size fits oa, alignment does not
 def cfgUnique : Cfg := ⟨0, 0, true, 0, true⟩     -- any_unique_t<…>
 
 def configs : List (String × Cfg) :=
   [("dflt", cfgDflt), ("small", cfgSmall), ("throw", cfgThrow), ("al64", cfgAl64), ("tiny", cfgTiny),
-   ("unique", cfgUnique)]
+   ("wide", cfgWide), ("unique", cfgUnique)]
 
 end Unifex.Proto.AnyObject
